@@ -7,11 +7,23 @@ answered by the EXTRACTED kernel model running as a co-process (drivers/c04_driv
 KSET/KCMD/KGET).  The extracted `session` function is run on the same
 configuration, dialogue cut, fault set and initial kernel state; the full
 argv/rc trace, the exit class and the final kernel state are compared.
-Oracles that look only at the implementation's run decide violations."""
+Oracles that look only at the implementation's run decide violations.
+
+Logging dimension: sys.stdout / sys.stderr of the helper are streams whose k-th
+operation can raise (OSError(EIO) of a hung-up terminal, BrokenPipeError,
+ValueError of a closed file, ...), once or from then on, at helpers.verbose 0/1/2;
+the real helpers.log / debug1 / debug2 run against them.  The same oracles apply
+(a failing log write must not keep the helper from cleaning up); the runs are also
+compared with the model without logging (theorem c04_log_faults_invisible) and, for
+nat/nft/tproxy, with the extracted model WITH log points (sessionL), which also
+fixes where the real code logs.  helpers.log's except clauses are tied to the
+model's log_swallows by running the real log() on failing streams for every modelled
+exception class and by a fail-closed ast check."""
+import ast
 import copy
+import errno
 import io
 import os
-import shlex
 import struct
 import subprocess
 import sys
@@ -28,7 +40,8 @@ TRUSTED_BASE = [
     "rules are opaque argv token lists; only the token after '-j' is interpreted (jump target); the rule bodies of a plan are taken from the fault-free run of the real set-up (their meaning is C03's subject)",
     "rule lines of an `iptables -nL` listing never start with 'Chain <name> '; chain names contain neither blanks nor newlines",
     "pf cannot be validated against a real kernel on this image (no BSD): pfctl -f replacing the main ruleset, kldunload discarding all pf state",
-    "harness: monkey-patched sshuttle.linux.ssubprocess / pf.pfctl / pf.ioctl / pf.pf_get_dev / pf.ssubprocess / firewall.setup_daemon / flush_systemd_dns_cache / rewrite_etc_hosts (recorder) / Method.is_supported; set-up/restore entry points wrapped to record phase marks",
+    "harness: monkey-patched sshuttle.linux.ssubprocess / pf.ssubprocess (call, check_output, Popen: the real pf.pfctl runs) / pf.ioctl / pf.pf_get_dev / firewall.setup_daemon / flush_systemd_dns_cache / rewrite_etc_hosts (recorder) / Method.is_supported; set-up/restore entry points wrapped to record phase marks; sys.stdout / sys.stderr replaced by recording streams that raise the injected exception",
+    "logging: a stream operation either succeeds or raises an instance of a built-in exception class (Model/FwLog.v lists Exception and 35 built-in classes below it; single inheritance, compared with issubclass on every pair; sshuttle's own Fatal is never raised by a stream); every sys.stdout.flush() on this code path is the first statement of a helpers.log call (used to delimit log calls); verbosity 3 (debug3) is not exercised",
 ]
 ASSUMPTIONS = [
     "a failing external command changes nothing (no partial effect) and at most the injected commands fail",
@@ -39,6 +52,9 @@ ASSUMPTIONS = [
     "chain names without blanks and built-in OUTPUT/PREROUTING present in every iptables table (kst_wf), ports printed without blanks, the initial state holds "
     "no object named for the session's own ports (erase c s0 = s0; anything else is allowed), tproxy bodies respect the restore order (tp_body_ordered), "
     "nft body rules name a chain nft.py creates (nft_body_ok); nat with --user/--group and pf remain sweeps / statements only",
+    "log faults: the theorems c04_log_total / c04_log_faults_invisible / c04_log_faults_same_commands assume that every exception a write or flush of the "
+    "helper's stdout/stderr raises is an OSError or a ValueError (any subclass) — what the except clauses of helpers.log name; sessionL models the log "
+    "points of nat, nft and tproxy sessions (pf logs inside pfctl(): harness only)",
 ]
 
 HERE = os.path.dirname(os.path.abspath(__file__))
@@ -153,16 +169,114 @@ class Kernel:
 
 
 # ---------------------------------------------------------------- running the real helper
+# exception classes a stream operation may raise (names as in coq/Model/FwLog.v / drivers/c04_driver.ml)
+LOG_CLASS_NAMES = [
+    "Exception", "OSError", "BlockingIOError", "ChildProcessError", "ConnectionError", "BrokenPipeError",
+    "ConnectionAbortedError", "ConnectionRefusedError", "ConnectionResetError", "FileExistsError", "FileNotFoundError",
+    "InterruptedError", "IsADirectoryError", "NotADirectoryError", "PermissionError", "ProcessLookupError", "TimeoutError",
+    "ValueError", "UnicodeError", "UnicodeEncodeError", "UnicodeDecodeError", "UnicodeTranslateError",
+    "RuntimeError", "RecursionError", "NotImplementedError", "TypeError", "AttributeError", "LookupError", "KeyError",
+    "IndexError", "ArithmeticError", "ZeroDivisionError", "MemoryError", "AssertionError", "EOFError", "BufferError"]
+# what a dead / closed / non-blocking / mis-encoded stream really raises: the oracles apply to these
+LOG_REALISTIC = ["OSError", "BrokenPipeError", "ValueError", "BlockingIOError", "UnicodeEncodeError", "InterruptedError",
+                 "ConnectionResetError", "TimeoutError", "PermissionError"]
+_OS_ERRNO = {"OSError": errno.EIO, "BlockingIOError": errno.EAGAIN, "ChildProcessError": errno.ECHILD,
+             "ConnectionError": None, "BrokenPipeError": errno.EPIPE, "ConnectionAbortedError": errno.ECONNABORTED,
+             "ConnectionRefusedError": errno.ECONNREFUSED, "ConnectionResetError": errno.ECONNRESET,
+             "FileExistsError": errno.EEXIST, "FileNotFoundError": errno.ENOENT, "InterruptedError": errno.EINTR,
+             "IsADirectoryError": errno.EISDIR, "NotADirectoryError": errno.ENOTDIR, "PermissionError": errno.EACCES,
+             "ProcessLookupError": errno.ESRCH, "TimeoutError": errno.ETIMEDOUT}
+
+
+def log_class(name):
+    import builtins
+    return getattr(builtins, name)
+
+
+def make_exc(name):
+    """an instance of exactly the named class, as a stream would raise it"""
+    cls = log_class(name)
+    if name in _OS_ERRNO:
+        e = cls(_OS_ERRNO[name], os.strerror(_OS_ERRNO[name])) if _OS_ERRNO[name] else cls("connection error")
+    elif name in ("UnicodeEncodeError", "UnicodeTranslateError"):
+        e = cls("ascii", "\u20ac", 0, 1, "ordinal not in range(128)") if name == "UnicodeEncodeError" \
+            else cls("\u20ac", 0, 1, "cannot translate")
+    elif name == "UnicodeDecodeError":
+        e = cls("ascii", b"\xff", 0, 1, "ordinal not in range(128)")
+    elif name == "ValueError":
+        e = cls("I/O operation on closed file")
+    else:
+        e = cls("injected by the C04 harness")
+    assert type(e) is cls, (name, type(e))
+    return e
+
+
+class LogStream:
+    """stands for sys.stdout (kind 'out') / sys.stderr (kind 'err') of the helper"""
+
+    def __init__(self, world, kind):
+        self.world, self.kind = world, kind
+
+    def write(self, s):
+        self.world.logop(self.kind, "write")
+        return len(s)
+
+    def flush(self):
+        self.world.logop(self.kind, "flush")
+
+    def isatty(self):
+        return False
+
+
 class World:
     """the simulated boundary for one run of firewall.main"""
 
-    def __init__(self, kernel, faults, snapshots=False):
+    def __init__(self, kernel, faults, snapshots=False, log=None):
         self.k = kernel
         self.faults = set(faults)
         self.n = 0
         self.trace = []
         self.snap = [] if snapshots else None
         self.in_setup = False
+        # logging environment: log = {"v": verbosity, "k": index of the first failing operation (None = none),
+        #   "mode": "once"|"from", "cls": class name, "both": stdout.flush counts and fails as well}
+        self.log = log or {}
+        self.calls = 0           # log calls begun (every log() starts with sys.stdout.flush())
+        self.iop = 0             # operation index inside the current log call
+        self.ops = 0             # operations the fault index counts
+        self.ops_all = 0
+        self.fired = None        # (call j, operation i) of the first injected exception
+        self.nfired = 0
+        self.fired_after_started = False
+        self.ops_started = None  # (counted, all) operations seen when STARTED was written
+        self.anomaly = None
+
+    def logop(self, kind, what):
+        if kind == "out":
+            if what != "flush":
+                self.anomaly = "write to sys.stdout"
+                return
+            self.calls += 1
+            self.iop = 0
+        else:
+            self.iop += 1
+            if self.calls == 0:
+                self.anomaly = "write to sys.stderr outside helpers.log"
+        self.ops_all += 1
+        lf = self.log
+        if kind == "out" and not lf.get("both"):
+            return
+        idx = self.ops
+        self.ops += 1
+        k = lf.get("k")
+        if k is None:
+            return
+        if idx == k or (idx > k and lf["mode"] == "from"):
+            if self.fired is None:
+                self.fired = (self.calls - 1, self.iop)
+                self.fired_after_started = self.ops_started is not None
+            self.nfired += 1
+            raise make_exc(lf["cls"])
 
     def external(self, argv, stdin=b"", countable=True):
         argv = [a.encode() if isinstance(a, str) else a for a in argv]
@@ -177,6 +291,8 @@ class World:
 
     def mark(self, m):
         self.trace.append("M:" + m)
+        if m == "started":
+            self.ops_started = (self.ops, self.ops_all)
 
 
 class SubprocessShim:
@@ -195,6 +311,19 @@ class SubprocessShim:
         if rc:
             raise subprocess.CalledProcessError(rc, argv)
         return out
+
+    def Popen(self, argv, stdin=None, stdout=None, stderr=None, env=None, **kw):
+        """pf.pfctl (pf.py:387-402): Popen(...).communicate(stdin), .returncode"""
+        shim = self
+
+        class Proc:
+            returncode = None
+
+            def communicate(self, data=None):
+                rc, out, err = shim.world.external(argv, data or b"")
+                self.returncode = rc
+                return (out, err)
+        return Proc()
 
 
 _LOADED = {}
@@ -218,13 +347,6 @@ def load_real():
     L.update(helpers=helpers, firewall=firewall, linux=linux, nat=m_nat, nft=m_nft, tproxy=m_tproxy, pf=m_pf, shim=shim,
              pf_context0=copy.deepcopy(m_pf._pf_context))
 
-    def fake_pfctl(args, stdin=None):
-        argv = ["pfctl"] + shlex.split(args)
-        rc, out, err = shim.world.external(argv, stdin or b"")
-        if rc:
-            raise helpers.Fatal("%r returned %d" % (argv, rc))
-        return (out, err)
-
     def fake_ioctl(dev, req, buf):
         pfo = m_pf.pf
         if req == pfo.DIOCCHANGERULE:
@@ -236,7 +358,6 @@ def load_real():
                 shim.world.external(["ioctl-add-anchor", "rdr" if kind == pfo.PF_RDR else "pass", name], countable=False)
         return 0
 
-    m_pf.pfctl = fake_pfctl
     m_pf.ioctl = fake_ioctl
     m_pf.pf_get_dev = lambda: 99
     firewall.flush_systemd_dns_cache = lambda: None
@@ -274,13 +395,14 @@ class Out:
         pass
 
 
-def run_real(kernel, method, state_enc, data, faults, snapshots=False):
-    """method: nat|nft|tproxy|pf-freebsd|pf-openbsd|pf-darwin; data: the bytes the helper can read.
-    returns dict(outcome, trace, final, fin_at, snaps)"""
+def run_real(kernel, method, state_enc, data, faults, snapshots=False, log=None):
+    """method: nat|nft|tproxy|pf-freebsd|pf-openbsd|pf-darwin; data: the bytes the helper can read;
+    log: the logging environment (see World).
+    returns dict(outcome, trace, final, fin_at, snaps, nlog, log_fired, ...)"""
     L = load_real()
     fw, pfm = L["firewall"], L["pf"]
     kernel.set(state_enc)
-    w = World(kernel, faults, snapshots)
+    w = World(kernel, faults, snapshots, log)
     L["shim"].world = w
     name = method
     if method.startswith("pf-"):
@@ -295,9 +417,10 @@ def run_real(kernel, method, state_enc, data, faults, snapshots=False):
             w.mark("hosts")
     fw.rewrite_etc_hosts = hosts
     old_err, old_out = sys.stderr, sys.stdout
-    sys.stderr = io.StringIO()
-    sys.stdout = io.StringIO()
-    L["helpers"].verbose = 0
+    sys.stderr = LogStream(w, "err")
+    sys.stdout = LogStream(w, "out")
+    L["helpers"].verbose = int((log or {}).get("v", 0))
+    crash = None
     try:
         try:
             fw.main(name, False)
@@ -306,9 +429,10 @@ def run_real(kernel, method, state_enc, data, faults, snapshots=False):
             outcome = "FATAL"
         except Exception as e:       # noqa
             outcome = "CRASH"
-            w.crash = repr(e)
+            crash = repr(e)
     finally:
         sys.stderr, sys.stdout = old_err, old_out
+        L["helpers"].verbose = 0
     fin_at = 0
     for t in w.trace:
         if t.startswith("M:restore"):
@@ -322,7 +446,9 @@ def run_real(kernel, method, state_enc, data, faults, snapshots=False):
         c = pfm._pf_context
         py = "%d,%d,%s" % (c["started_by_sshuttle"], 1 if c["loaded_by_sshuttle"] else 0, ".".join(hx(t) for t in c["Xtoken"]))
     return {"outcome": outcome, "trace": w.trace, "final": kernel.get(), "ncmds": w.n, "fin_at": fin_at,
-            "snaps": w.snap, "py": py}
+            "snaps": w.snap, "py": py, "crash": crash, "nlog": w.calls, "log_fired": w.fired, "log_nfired": w.nfired,
+            "log_ops": w.ops, "log_ops_all": w.ops_all, "ops_started": w.ops_started, "log_anomaly": w.anomaly,
+            "log_fired_after_started": w.fired_after_started}
 
 
 # ---------------------------------------------------------------- plans and dialogues
@@ -532,7 +658,45 @@ def parse_session(out):
     head, ev, fin = out.split(" | ")
     h = head.split(" ")
     return {"outcome": h[0], "ncmds": int(h[1]), "fin_at": int(h[2]), "py": h[3],
-            "trace": ev.split(" ") if ev else [], "final": fin}
+            "trace": ev.split(" ") if ev else [], "final": fin, "nlog": int(h[4]) if len(h) > 4 else None}
+
+
+def pre_levels(plan, cut):
+    """levels of the debug calls firewall.main makes before `try:` (firewall.py:205-326) for a dialogue
+    cut after `cut` lines: debug1 'Starting firewall', debug1 'ready method', then debug2 'Got subnets' when the
+    NSLIST line arrives, 'Got partial nslist' per name server, 'Got nslist' + 'Got ports' with PORTS, 'Got udp' with GO"""
+    lv = [1, 1]
+    hdr = plan.header()
+    in_ns = False
+    for line in hdr[:min(cut, len(hdr))]:
+        if line == "NSLIST":
+            lv.append(2)
+            in_ns = True
+        elif line.startswith("PORTS "):
+            lv += [2, 2]
+            in_ns = False
+        elif line.startswith("GO "):
+            lv.append(2)
+        elif in_ns:
+            lv.append(2)
+    return lv
+
+
+def log_env_fields(log, real):
+    """the logging environment as the model takes it: the injected fault named by the (call, operation) at which
+    it first fired in the real run (it did not fire: no fault)"""
+    fired = real["log_fired"]
+    if log.get("k") is None or fired is None:
+        return "ok 0 0 OSError 0", 1
+    j0, i0 = fired
+    return "%s %d %d %s %d" % (log["mode"], j0, i0, log["cls"], 1 if log.get("both") else 0), max(1, i0)
+
+
+def sessionL_line(plan, bodies, cut, faults, state_enc, log, real):
+    env, nl = log_env_fields(log, real)
+    return "SESSIONL %d %s %d %s %s %d %s %s" % (
+        log.get("v", 0), env, nl, ",".join(str(x) for x in pre_levels(plan, cut)),
+        cfg_fields(plan, bodies, True), cut, ",".join(str(k) for k in sorted(faults)) or "-", state_enc)
 
 
 def obs(r, pf):
@@ -632,6 +796,7 @@ def other_instance(kern, method, q, st_enc):
 def _correspondence(ctx, rng, quick, kern):
     nplans = 3 if quick else 40
     pending = []          # (model line repaired, model line asfound, real observation, case info)
+    pendingL = []         # (SESSIONL line, real observation, case info): runs compared with the model WITH log points
 
     def one(plan, bodies, cut, faults, st_enc, kind, snapshots=False):
         real = run_real(kern, plan.method, st_enc, plan.data(cut), faults, snapshots)
@@ -696,6 +861,9 @@ def _correspondence(ctx, rng, quick, kern):
                 if N >= 2:
                     one(plan, bodies, rng.randint(nh, nl), rng.sample(range(N), 2), st_enc, "fault2")
                     ctx.count("double_faults")
+            log_dimension(ctx, rng, quick, kern, plan, bodies, st_enc, base, pending, pendingL, pi)
+
+    log_correspondence(ctx)
 
     # ---- model side in one batch
     lines = [p[0] for p in pending]
@@ -717,7 +885,8 @@ def _correspondence(ctx, rng, quick, kern):
             asfound_only += 1
         else:
             first = next((i for i, (a, b) in enumerate(zip(real["trace"] + ["<end>"], m["trace"] + ["<end>"])) if a != b), None)
-            ctx.disagree("session trace / final state", {k: info[k] for k in ("plan", "cut", "faults", "kind")},
+            ctx.disagree("session trace / final state" + (" under a log fault the real log() should swallow" if info.get("log") else ""),
+                         {k: info.get(k) for k in ("plan", "cut", "faults", "kind", "log")},
                          {"outcome": real["outcome"], "first_diff_at": first,
                           "trace_at": real["trace"][first:first + 3] if first is not None else None,
                           "final": real["final"][:300], "py": real["py"]},
@@ -725,11 +894,28 @@ def _correspondence(ctx, rng, quick, kern):
                           "final": m["final"][:300], "py": m["py"]})
     ctx.extra["runs_matching_only_the_as_found_model"] = asfound_only
 
+    # ---- the model WITH log points (nat, nft, tproxy): exit class, trace, final state and number of log calls
+    outsL = ctx.run_driver([p[0] for p in pendingL])
+    for (line, real, info), out in zip(pendingL, outsL):
+        m = parse_session(out)
+        a = obs(real, False) + (real["nlog"],)
+        b = obs(m, False) + (m["nlog"],)
+        ctx.count("sessionL_compared")
+        if a != b:
+            first = next((i for i, (x, y) in enumerate(zip(real["trace"] + ["<end>"], m["trace"] + ["<end>"])) if x != y), None)
+            ctx.disagree("session with log points (sessionL): trace / final state / number of log calls",
+                         {k: info.get(k) for k in ("plan", "cut", "faults", "kind", "log")},
+                         {"outcome": real["outcome"], "crash": real["crash"], "nlog": real["nlog"], "ncmds": real["ncmds"],
+                          "fired": real["log_fired"], "first_diff_at": first,
+                          "trace_at": real["trace"][first:first + 3] if first is not None else None},
+                         {"outcome": m["outcome"], "nlog": m["nlog"], "ncmds": m["ncmds"],
+                          "trace_at": m["trace"][first:first + 3] if first is not None else None})
+
     # ---- oracles on the implementation alone
     for (l1, l2, real, info) in pending:
         plan = plan_from_dict(info["plan"])
         ncmd = real["ncmds"]
-        ctx.case((plan.desc(), info["cut"], tuple(info["faults"]), info["state"]),
+        ctx.case((plan.desc(), info["cut"], tuple(info["faults"]), info["state"], repr(info.get("log"))),
                  nontrivial=bool(ncmd) or 0 < info["cut"] < len(plan.header()),
                  sample={"plan": plan.desc(), "kind": info["kind"], "cut": info["cut"], "faults": info["faults"],
                          "outcome": real["outcome"], "commands": ncmd, "trace_head": real["trace"][:4]}
@@ -738,6 +924,221 @@ def _correspondence(ctx, rng, quick, kern):
     ctx.programs = len(pending)
     ctx.extra["exhaustive"] = not quick
     ctx.notes.append("every cut position and (thorough: every; quick: up to 70 per plan) single fault index of each generated plan was run")
+
+
+# ---------------------------------------------------------------- the logging dimension
+def log_dimension(ctx, rng, quick, kern, plan, bodies, st_enc, base, pending, pendingL, pi):
+    """sessions of `plan` under logging environments: verbosity x failing stream operation x class x mode,
+    combined with cuts and failing commands.  Runs with a class the spec says log() must swallow (OSError / ValueError
+    subclasses — decided by Python's issubclass, not by the code under test) go through the C04 oracles and are compared
+    with the model WITHOUT logging; nat/nft/tproxy runs are also compared with the model with log points."""
+    nl, nh = len(plan.lines()), len(plan.header())
+    N, fin_at = base["ncmds"], base["fin_at"]
+    with_L = not plan.method.startswith("pf")
+
+    def go(cut, faults, log, kind, oracle_applies=True):
+        real = run_real(kern, plan.method, st_enc, plan.data(cut), faults,
+                        snapshots=oracle_applies and kind in ("log-hangup", "log-base"), log=log)
+        info = {"plan": plan.as_dict(), "cut": cut, "faults": sorted(faults), "state": st_enc, "kind": kind, "log": log}
+        if real["log_anomaly"]:
+            ctx.disagree("log stream used outside helpers.log", info["log"], real["log_anomaly"], "every stream operation belongs to a log call")
+        if oracle_applies:
+            pending.append((session_line(plan, bodies, cut, faults, st_enc, True),
+                            session_line(plan, bodies, cut, faults, st_enc, False), real, info))
+        if with_L:
+            pendingL.append((sessionL_line(plan, bodies, cut, faults, st_enc, log, real), real, info))
+        ctx.count("log_runs")
+        ctx.count("log_verbose_%d" % log["v"])
+        if log.get("k") is not None:
+            ctx.count("log_class_%s" % log["cls"])
+            ctx.count("log_mode_%s%s" % (log["mode"], "_stdout_too" if log.get("both") else ""))
+            ctx.count("log_fault_fired" if real["log_fired"] else "log_fault_beyond_last_operation")
+            if real["log_fired"]:
+                ctx.count("log_fault_first_fired_%s" % ("after_STARTED_wait_loop_or_tear_down" if real["log_fired_after_started"]
+                                                        else "before_STARTED_dialogue_or_set_up"))
+        else:
+            ctx.count("log_no_fault")
+        if faults:
+            ctx.count("log_with_command_fault")
+        if cut < nl:
+            ctx.count("log_with_cut")
+        return real
+
+    # fault-free runs at every verbosity: where the operations fall
+    ops = {}
+    for v in (0, 1, 2):
+        r = go(nl, [], {"v": v}, "log-base")
+        ops[v] = (r["log_ops"], r["ops_started"][0] if r["ops_started"] else None, r["log_ops_all"], r["ops_started"][1] if r["ops_started"] else None)
+        ctx.count("log_operations_total", r["log_ops_all"])
+    classes = ["OSError", "BrokenPipeError", "ValueError"]
+    # (a) the terminal / pipe / file goes away while the session runs: every write fails from the first
+    #     operation after STARTED on, at -v and -vv
+    for v in (1, 2):
+        if ops[v][1] is None:
+            continue
+        for cls in classes:
+            go(nl, [], {"v": v, "k": ops[v][1], "mode": "from", "cls": cls, "both": False}, "log-hangup")
+            ctx.count("log_hangup_after_started")
+    # (b) not verbose, stderr dead from the start, one tear-down command fails: nonfatal() logs at any verbosity
+    td = list(range(fin_at, N))
+    for kc in (td if not quick else rng.sample(td, min(2, len(td)))):
+        for cls in (classes if not quick else ["OSError", "ValueError"]):
+            go(nl, [kc], {"v": 0, "k": 0, "mode": "from", "cls": cls, "both": rng.random() < 0.3}, "log-quiet-teardown-fault")
+            ctx.count("log_dead_stderr_quiet_with_teardown_fault")
+    # (c) every operation index at -v / -vv (thorough: all of the first plans of each method; otherwise a sample)
+    more = LOG_REALISTIC
+    for v in (1, 2):
+        n_ops = ops[v][0]
+        if quick:
+            ks = sorted(rng.sample(range(n_ops), min(3, n_ops)))
+        elif pi < 6:
+            ks = range(n_ops)
+        else:
+            ks = sorted(rng.sample(range(n_ops), min(12, n_ops)))
+        for k in ks:
+            go(nl, [], {"v": v, "k": k, "mode": "from" if rng.random() < 0.6 else "once", "cls": rng.choice(more), "both": False},
+               "log-every-op")
+            ctx.count("log_operation_sweep")
+    # (d) random combinations with cuts and failing commands, stdout flush failing as well
+    for _ in range(5 if quick else 30):
+        v = rng.choice([0, 1, 1, 2, 2])
+        both = rng.random() < 0.35
+        n_ops = ops[v][2] if both else ops[v][0]
+        log = {"v": v, "k": rng.randint(0, n_ops + 1), "mode": rng.choice(["once", "from", "from"]),
+               "cls": rng.choice(more), "both": both}
+        faults = [rng.randrange(N)] if N and rng.random() < 0.5 else []
+        go(rng.randint(nh, nl) if rng.random() < 0.6 else rng.randint(0, nl), faults, log, "log-random")
+        ctx.count("log_random")
+    # (e) a class log() does NOT swallow (no stream raises these; no oracle): fixes where the real code logs and
+    #     what an escaping exception skips, against the model with log points
+    if with_L:
+        for _ in range(3 if quick else 12):
+            v = rng.choice([1, 2])
+            log = {"v": v, "k": rng.randint(0, ops[v][0]), "mode": rng.choice(["once", "from"]),
+                   "cls": rng.choice(["RuntimeError", "TypeError", "KeyError", "Exception", "EOFError"]), "both": rng.random() < 0.3}
+            faults = [rng.randrange(N)] if N and rng.random() < 0.5 else []
+            go(rng.randint(nh, nl), faults, log, "log-unswallowed-class", oracle_applies=False)
+            ctx.count("log_unswallowed_class_model_only")
+
+
+class _FailingStream:
+    """a stream whose operations consult one log call's environment"""
+
+    def __init__(self, env, kind):
+        self.env, self.kind = env, kind
+
+    def _op(self):
+        e = self.env
+        i = e["i"]
+        e["i"] += 1
+        hit = (i == e["i0"]) if e["mode"] == "once" else (e["mode"] == "from" and i >= e["i0"] and (e["both"] or i > 0))
+        if hit:
+            raise make_exc(e["cls"])
+
+    def write(self, s):
+        self._op()
+        return len(s)
+
+    def flush(self):
+        self._op()
+
+
+def real_log_call(mode, i0, cls, both, nlines, fn="log", verbose=0):
+    """one call of the real helpers.log (or debugN) with streams failing at operation i0 -> 'RETURN' | 'ESCAPE <class>'"""
+    helpers = load_real()["helpers"]
+    env = {"i": 0, "mode": mode, "i0": i0, "cls": cls, "both": both}
+    old = (sys.stdout, sys.stderr, helpers.verbose)
+    sys.stdout, sys.stderr, helpers.verbose = _FailingStream(env, "out"), _FailingStream(env, "err"), verbose
+    try:
+        try:
+            getattr(helpers, fn)("\n".join("line %d" % x for x in range(nlines)))
+            res = "RETURN"
+        except BaseException as e:      # noqa
+            res = "ESCAPE " + type(e).__name__
+    finally:
+        sys.stdout, sys.stderr, helpers.verbose = old
+    return res, env["i"]
+
+
+def log_correspondence(ctx):
+    """ties the model's log / log_swallows / subclass / verbosity gate to sshuttle/helpers.py"""
+    helpers = load_real()["helpers"]
+    names = LOG_CLASS_NAMES
+    # (1) the exception hierarchy of the running interpreter
+    if IOError is not OSError:
+        ctx.disagree("IOError is not OSError in this interpreter", "-", repr(IOError), "alias")
+    pairs = [(a, b) for a in names for b in names]
+    outs = ctx.run_driver(["SUBCLASS %s %s" % p for p in pairs])
+    for (a, b), o in zip(pairs, outs):
+        if (o == "1") != issubclass(log_class(a), log_class(b)):
+            ctx.disagree("exception hierarchy", (a, b), issubclass(log_class(a), log_class(b)), o)
+    ctx.count("log_subclass_pairs", len(pairs))
+    # (2) the real log() on failing streams, every class, every operation position
+    cases = []
+    for cls in names:
+        for nlines in (1, 2, 3):
+            for i0 in range(nlines + 2):
+                cases.append(("once", i0, cls, False, nlines))
+                cases.append(("from", i0, cls, True, nlines))
+                if i0:
+                    cases.append(("from", i0, cls, False, nlines))
+    cases.append(("ok", 0, "OSError", False, 2))
+    outs = ctx.run_driver(["LOGCALL %s %d %s %d %d" % (m, i0, c, 1 if b else 0, n) for (m, i0, c, b, n) in cases])
+    sw = dict(zip(names, ctx.run_driver(["SWALLOWS %s" % c for c in names])))
+    for (m, i0, c, b, n), mo in zip(cases, outs):
+        got, nops = real_log_call(m, i0, c, b, n)
+        ctx.count("logcall_cases")
+        ctx.count("logcall_escapes" if got != "RETURN" else "logcall_returns")
+        if got != mo:
+            ctx.disagree("helpers.log on a failing stream", {"mode": m, "op": i0, "class": c, "stdout_too": b, "lines": n}, got, mo)
+        # oracle on the implementation alone (spec side: Python's own issubclass): what a dead stream can raise must not escape
+        must_swallow = issubclass(log_class(c), (OSError, ValueError))
+        if must_swallow != (sw[c] == "1"):
+            ctx.disagree("log_swallows vs the spec (OSError / ValueError subclasses)", c, must_swallow, sw[c])
+        if must_swallow and got != "RETURN":
+            ctx.violation("helpers.log lets an exception of a failing stderr/stdout write escape (%s): the helper's clean-up "
+                          "is abandoned at its next log call" % ("an OSError" if issubclass(log_class(c), OSError) else "a ValueError"),
+                          {"log_call": {"mode": m, "i0": i0, "cls": c, "both": b, "nlines": n}, "got": got})
+    ctx.case(("logcall", len(cases)), nontrivial=True)
+    # (3) the verbosity gate (helpers.py:48-60) = the model's `dbg`: debugN touches the streams iff N <= verbose
+    for v in range(0, 4):
+        for lvl, fn in ((0, "log"), (1, "debug1"), (2, "debug2"), (3, "debug3")):
+            got, nops = real_log_call("ok", 0, "OSError", False, 1, fn=fn, verbose=v)
+            ctx.count("log_gate_cases")
+            if (nops > 0) != (lvl <= v) or (nops not in (0, 3)) or got != "RETURN":
+                ctx.disagree("verbosity gate", (fn, v), (got, nops), "active iff level <= verbose; 3 stream operations per one-line message")
+    # (4) fail-closed look at the source of log(): [global] + two try blocks, each `except (IOError|OSError, ValueError): pass`
+    try:
+        tree = ast.parse(open(helpers.__file__).read())
+        fn = [n for n in tree.body if isinstance(n, ast.FunctionDef) and n.name == "log"]
+        problems = []
+        if len(fn) != 1:
+            problems.append("%d definitions of log" % len(fn))
+        else:
+            body = [n for n in fn[0].body if not isinstance(n, (ast.Global, ast.Expr))]
+            if [type(n) for n in body] != [ast.Try, ast.Try]:
+                problems.append("body is not two try statements: %r" % [type(n).__name__ for n in body])
+            for t in [n for n in ast.walk(fn[0]) if isinstance(n, ast.Try)]:
+                if t.orelse or t.finalbody or len(t.handlers) != 1:
+                    problems.append("try at line %d: else/finally/handlers" % t.lineno)
+                    continue
+                h = t.handlers[0]
+                elts = h.type.elts if isinstance(h.type, ast.Tuple) else [h.type] if h.type is not None else []
+                named = sorted(ast.unparse(e) for e in elts)
+                resolved = set()
+                for nm in named:
+                    import builtins
+                    resolved.add(getattr(builtins, nm, None))
+                if resolved != {OSError, ValueError} or h.name is not None:
+                    problems.append("line %d: except %s" % (h.lineno, ", ".join(named) or "<bare>"))
+                if [type(x) for x in h.body] != [ast.Pass]:
+                    problems.append("line %d: handler body is not `pass`" % h.lineno)
+        if problems:
+            ctx.disagree("helpers.log except clauses (ast)", helpers.__file__, problems,
+                         "two try blocks, each `except (IOError, ValueError): pass` = log_swallows")
+    except (OSError, SyntaxError) as e:
+        ctx.disagree("helpers.log source not readable", helpers.__file__, repr(e), "-")
+    ctx.count("log_ast_checked")
 
 
 def check_bodies(ctx, plan, bodies):
@@ -765,6 +1166,16 @@ def oracle(ctx, kern, plan, info, real):
     want = erase(s0, own)
     pf = plan.method.startswith("pf")
     rep = {"plan": info["plan"], "cut": info["cut"], "faults": info["faults"], "state": info["state"]}
+    if info.get("log"):
+        rep["log"] = info["log"]
+        lg = info["log"]
+        rep["log_note"] = ("helpers.verbose=%s; " % lg.get("v", 0)
+                           + ("no failing stream operation" if lg.get("k") is None else
+                              "operation #%s on the helper's %s raises %s (%s)"
+                              % (lg["k"], "stdout+stderr" if lg.get("both") else "stderr", lg["cls"],
+                                 "once" if lg.get("mode") == "once" else "from then on"))
+                           + "; outcome=%s crash=%s commands=%d of which tear-down=%d"
+                           % (real["outcome"], real.get("crash"), real["ncmds"], real["ncmds"] - real["fin_at"]))
     fin_at = real["fin_at"]
     teardown_fault = any(k >= fin_at for k in info["faults"]) and real["ncmds"] > fin_at
     if info["cut"] < len(plan.header()):
@@ -860,6 +1271,10 @@ def pf_identity(plan, s0, fin, rep, ctx):
 
 def replay(ctx, rp):
     r = rp.get("replay", {})
+    if "log_call" in r:
+        got, _ = real_log_call(**r["log_call"])
+        print("helpers.log on the failing stream:", got)
+        return got != "RETURN"
     if "plan" not in r:
         print("nothing replayable in", rp.get("kind"))
         return False
@@ -870,8 +1285,9 @@ def replay(ctx, rp):
             real = run_real(kern, plan.method, r["state"], plan.data(len(plan.header()))[: r["bytes"]], [])
             print("commands issued:", real["ncmds"])
             return bool(real["ncmds"])
-        real = run_real(kern, plan.method, r["state"], plan.data(r["cut"]), r["faults"], snapshots=True)
-        info = {"plan": r["plan"], "cut": r["cut"], "faults": r["faults"], "state": r["state"], "kind": "replay"}
+        real = run_real(kern, plan.method, r["state"], plan.data(r["cut"]), r["faults"], snapshots=True, log=r.get("log"))
+        info = {"plan": r["plan"], "cut": r["cut"], "faults": r["faults"], "state": r["state"], "kind": "replay",
+                "log": r.get("log")}
         before = len(ctx.violations)
         oracle(ctx, kern, plan, info, real)
         for what, _ in ctx.violations[before:]:
